@@ -92,9 +92,37 @@ def run(ctx):
         k = rng.randrange(2, 9)
         add(cc.stream(**dict({"from": frm, "early": rng.choice([0, 3, 64, 4097]), "late": rng.choice([0, 16])}, **kw)),
             [rng.randrange(1, 140) for _ in range(k)], pace_ms=rng.choice([1, 5, 20]))
-    ctx.log("C: %d connections" % len(cases))
-    results = cc.run_cases(ctx, [(w, cases)], par=400)
+    # ---- the expiry sweeper removes a registration between the transport's lookup and the handler's MarkActive (it had just
+    # outlived its unused lifetime); that connection is still served, and every later client - any transport - on the
+    # same phantom is found and marked used as before
+    w2 = {"phantoms": {"P1": "192.122.190.10"}, "regs": []}
+    cases2 = []
+    kinds = [("min", 0), ("prefix", 3), ("obfs4", 0), ("prefix", 0)]
+    for i, (t, pid) in enumerate(kinds):
+        for role in ("sw", "fu"):
+            w2["regs"].append({"name": "%s%d" % (role, i), "secret": "s-%s%d" % (role, i), "transport": t, "prefix_id": pid, "state": "valid", "phantom": "P1"})
+    for i, (t, pid) in enumerate(kinds):
+        c = cc.case("c04-sweep-%d" % i, "P1", cc.stream(**{"from": "sw%d" % i, "client_px": pid, "early": 16, "late": 8}), [rng.randrange(1, 30)])
+        c["sweep_on_match"] = True
+        c["start_ms"] = 150 * i
+        cases2.append(c)
+        for j in range(3):
+            c = cc.case("c04-after-sweep-%d-%d" % (i, j), "P1", cc.stream(**{"from": "fu%d" % i, "client_px": pid, "early": 16, "late": 8}),
+                        [rng.randrange(1, 30)])
+            c["start_ms"] = 900 + 40 * j
+            cases2.append(c)
+    ctx.log("C: %d connections + %d around a sweeper race" % (len(cases), len(cases2)))
+    results = cc.run_cases(ctx, [(w, cases), (w2, cases2)], par=400)
+    swept = sum(1 for (_, cs, r) in results if cs.get("sweep_on_match") and any(e["a"] == "Swept" for e in r["ev"]))
+    ctx.stage("C", sweeper_between_lookup_and_mark=swept, connections_after_it=len(cases2) - len(kinds))
+    for (_, cs, r) in results:
+        if r.get("registry_blocked"):
+            ctx.violation("c04:registry-blocked", "the registration table no longer answers (lookup blocked for 8 s) when connection %s arrives - after the "
+                          "expiry sweeper removed a registration between a handler's lookup and its MarkActive" % cs["id"], {"case": cs})
+            break
     summary = cc.validate(ctx, "C04", results, "c04")
+    if swept != len(kinds) and not ctx.violations:
+        raise vlib.InfraError("the sweeper-race stage removed %d of %d registrations between lookup and MarkActive" % (swept, len(kinds)))
     matched = sum(1 for (_, _, r) in results if r["final"].get("matched"))
     ctx.log("C: %d traces, %d accepted, %d rejected; %d connections matched" % (summary["traces"], summary["accepted"], summary["rejected"], matched))
     if summary["rejected"] == 0:
